@@ -133,6 +133,7 @@ pub fn gen_inventory_shaped_bits(rng: &mut Rng) -> String {
                 3 => 32 * rng.urange(1, 31) + 1,
                 4 => 1023,
                 5 => 32 * rng.urange(1, 31),
+                6 => rng.urange(2, 40),
                 _ => rng.urange(2, 1023),
             }
         } else {
